@@ -18,6 +18,7 @@ from .core import (
     H,
     INF,
     INT,
+    INTINF,
     NEG_INF,
     OBJ,
     OPTINT,
@@ -361,6 +362,8 @@ class Interp:
             if ty is REAL and v.ty is INT:
                 return z3.ToReal(v.t)
             return v.t
+        if ty is INTINF and isinstance(v, float) and v == float("inf"):
+            return z3.IntVal(-1)
         if v is None:
             return z3.IntVal(-1) if ty is OPTINT else z3.IntVal(0)
         if isinstance(v, bool):
@@ -407,6 +410,8 @@ class Interp:
                 return v.t != 0
             if v.ty is OPTINT:
                 return z3.And(v.t != -1, v.t != 0)
+            if v.ty is INTINF:
+                return v.t != 0
             if v.ty is REAL:
                 return v.t != 0
             if v.ty is BYTES:
@@ -652,7 +657,14 @@ class Interp:
         fm = self.find_method(info.name, "__init__")
         if fm is not None:
             self.call_function(fm[0], [ref] + list(args), kwargs)
+        elif info.source is not None and self.is_dataclass(info):
+            self.lib.dataclass_init(self, info, ref, args, kwargs)
         return ref
+
+    def is_dataclass(self, info):
+        modpath, qual = info.source
+        node = extract.module(modpath).get(qual)
+        return any(ast.unparse(d).startswith("dataclass") for d in getattr(node, "decorator_list", []))
 
     def bind_args(self, f: FuncVal, args, kwargs):
         a = f.node.args
@@ -1172,6 +1184,8 @@ class Interp:
         # ordering
         if _is_pynum(a) and _is_pynum(b):
             return _PYCMP[type(op)](a, b)
+        if (isinstance(a, Sym) and a.ty is INTINF) or (isinstance(b, Sym) and b.ty is INTINF):
+            return self.compare_intinf(op, a, b)
         if _is_num(a) and _is_num(b):
             inf = float("inf")
             for x, y, flip in ((a, b, False), (b, a, True)):
@@ -1187,6 +1201,22 @@ class Interp:
             ta, tb = self.term(a, ty), self.term(b, ty)
             return _Z3CMP[type(op)](ta, tb)
         raise Unsupported(f"comparison {type(op).__name__} on {a!r}, {b!r}")
+
+    def compare_intinf(self, op, a, b):
+        """ordering where one side is `int or +inf` (INTINF, +inf encoded as -1) and the other an int"""
+        o = type(op)
+        if isinstance(a, Sym) and a.ty is INTINF:
+            if isinstance(b, Sym) and b.ty is INTINF:
+                raise Unsupported("comparison of two int-or-inf values")
+            flip = {ast.Lt: ast.Gt, ast.LtE: ast.GtE, ast.Gt: ast.Lt, ast.GtE: ast.LtE}[o]
+            return self.compare_intinf(flip(), b, a)
+        if isinstance(a, float) and a == float("inf"):
+            return {ast.Lt: False, ast.LtE: b.t == -1, ast.Gt: b.t != -1, ast.GtE: True}[o]
+        if not (_is_pynum(a) or (isinstance(a, Sym) and a.ty is INT)):
+            raise Unsupported(f"comparison of {a!r} with an int-or-inf value")
+        ta = self.term(a, INT)
+        inf = b.t == -1
+        return {ast.Lt: z3.Or(inf, ta < b.t), ast.LtE: z3.Or(inf, ta <= b.t), ast.Gt: z3.And(z3.Not(inf), ta > b.t), ast.GtE: z3.And(z3.Not(inf), ta >= b.t)}[o]
 
     def equal(self, a, b, identity=False):
         if isinstance(a, tuple) and isinstance(b, tuple):
@@ -1235,6 +1265,10 @@ class Interp:
                     return sa.t == (1 if other else 0)
                 return False
             if isinstance(other, (int, float)):
+                if sa.ty is INTINF:
+                    if isinstance(other, float):
+                        return sa.t == -1 if other == float("inf") else False
+                    return sa.t == other if other >= 0 else False
                 if isinstance(other, float) and other in (float("inf"), float("-inf")):
                     return False  # symbolic numbers are finite
                 if sa.ty in (INT, REAL):
@@ -1248,6 +1282,8 @@ class Interp:
 
     def ex_Subscript(self, e, env, mp):
         obj = self.eval(e.value, env, mp)
+        if isinstance(obj, ClassVal):
+            return obj  # Generic[T] alias: C[T] constructs a C
         idx = self.eval_slice(e.slice, env, mp)
         return self.lib.get_item(self, obj, idx)
 
